@@ -131,23 +131,22 @@ def coq_properties(ctx, prop, extra_files=()):
 
 def coqchk(ctx, modules):
     """thorough tier: re-check the compiled property files and everything they depend on with the independent checker and record
-    the axioms it reports (-o): the development must rely on none"""
-    from concurrent.futures import ThreadPoolExecutor
-    def one(m):
-        rc, out = sh(["coqchk", "-silent", "-o", "-Q", "coq", "PIQP", "PIQP." + m], cwd=VERIF, timeout=3000)
-        ax = re.search(r"\* Axioms:(.*?)\n\s*\n", out + "\n\n", flags=re.S)
-        axs = ax.group(1).strip() if ax else "?"
-        bad = [k for k in ("type-in-type", "unsafe (co)fixpoints", "positivity is assumed") if not re.search(re.escape(k) + r":\s*<none>", out)]
-        return m, rc, axs, bad, out[-300:]
-    with ThreadPoolExecutor(max_workers=2) as ex:
-        for m, rc, axs, bad, tail in ex.map(one, modules):
-            if rc == 124 or rc < 0 or rc == 137:
-                # the independent checker did not finish (time limit, or killed for memory): not a verdict either way; coqc's own check stands
-                ctx.notes.append("coqchk PIQP.%s: not finished within the time limit (no verdict)" % m)
-                continue
-            ok = rc == 0 and axs == "<none>" and not bad
-            ctx.ob("coqchk:%s" % m, "coqchk", ok, "rc=%d axioms=%s %s %s" % (rc, axs[:300], bad, "" if ok else tail))
-            ctx.trusted.append("coqchk -o PIQP.%s: axioms %s" % (m, axs[:200]))
+    the axioms it reports (-o): the development must rely on none.  One invocation for all files of the property, so that the
+    shared dependencies (the model and the big proof files) are re-checked once."""
+    t0 = time.time()
+    rc, out = sh(["coqchk", "-silent", "-o", "-Q", "coq", "PIQP"] + ["PIQP." + m for m in modules], cwd=VERIF, timeout=7200)
+    names = ",".join(modules)
+    if rc == 124 or rc < 0 or rc == 137:
+        # the independent checker did not finish (time limit, or killed for memory): not a verdict either way; coqc's own check stands
+        ctx.notes.append("coqchk %s: not finished within the time limit (no verdict)" % names)
+        return
+    ax = re.search(r"\* Axioms:(.*?)\n\s*\n", out + "\n\n", flags=re.S)
+    axs = ax.group(1).strip() if ax else "?"
+    bad = [k for k in ("type-in-type", "unsafe (co)fixpoints", "positivity is assumed") if not re.search(re.escape(k) + r":\s*<none>", out)]
+    ok = rc == 0 and axs == "<none>" and not bad
+    for m in modules:
+        ctx.ob("coqchk:%s" % m, "coqchk", ok, "rc=%d axioms=%s %s %s" % (rc, axs[:300], bad, "" if ok else out[-300:]))
+    ctx.trusted.append("coqchk -o %s (one run, %.0f s): axioms %s" % (names, time.time() - t0, axs[:200]))
 
 # ---------------------------------------------------------------- harness cache
 def _hash(b):
